@@ -140,7 +140,11 @@ def check_nested():
             if len(got) != 1 or got[0] is not target:
                 res.violations.append(Violation('inputs: reference resolved to another task', f'namespace {full_ns}, reference {ref!r}: {[getattr(t, "fullname", t) for t in got]}', case))
             for q in (f'{full_ns}::{local}', f'{full_ns}::x', local, 'x'):
-                if ch[q] is not target or q not in ch or d.input_tasks[q] is not target or q not in d.input_tasks:
+                try:
+                    ok = not (ch[q] is not target or q not in ch or d.input_tasks[q] is not target or q not in d.input_tasks)
+                except Exception:  # noqa  (a lookup that raises does not address the task either)
+                    ok = False
+                if not ok:
                     res.violations.append(Violation('chain/inputs: nested-namespace task not addressable by full or shorter name', f'namespace {full_ns}, task {local}, query {q!r}', case))
         finally:
             w.dispose()
